@@ -25,7 +25,7 @@ ASSUMPTIONS = [
   "CPU device: kernels are deterministic, so bitwise equality across processes is the oracle",
   "the fresh process uses the same on-disk kernel cache (compiled binaries are keyed by source hash)",
 ]
-BUDGET = {"quick": dict(examples=64, seconds=150, workers=16), "thorough": dict(examples=3000, seconds=2400, workers=16)}
+BUDGET = {"quick": dict(examples=64, seconds=420, workers=16), "thorough": dict(examples=3000, seconds=2400, workers=16)}
 
 # flags toggled one at a time (name, the non-default value)
 _FLAGS = [("nativeccd", "disable"), ("multiccd", "disable"), ("island", "disable"), ("energy", "enable"), ("warmstart", "disable"), ("sleep", "enable"), ("gravity", "disable"),
